@@ -43,16 +43,24 @@ StripL(s) == IF Len(s) > 0 /\ Head(s) = "0" THEN StripL(Tail(s)) ELSE s
 StripR(s) == IF Len(s) > 0 /\ s[Len(s)] = "0" THEN StripR(SubSeq(s, 1, Len(s) - 1)) ELSE s
 RECURSIVE StrOf(_)
 StrOf(cs) == IF cs = <<>> THEN "" ELSE cs[1] \o StrOf(Tail(cs))
+\* f64 rounding at 1: 1 + x is the float 1.0 exactly when x <= 2^-53 (ties to even); the exact decimal of 2^-53:
+HalfUlp == Chars("00000000000000011102230246251565404236316680908203125")
+FracLeq(a, c) == LET n == Max2(Len(a), Len(c))
+                     pa == a \o [i \in 1..(n - Len(a)) |-> "0"]
+                     pc == c \o [i \in 1..(n - Len(c)) |-> "0"]
+                 IN LexLeq(pa, pc, 1)
+RoundsToOne(fp) == FracLeq(fp, HalfUlp)
 \* the text Rust's Display prints for the parsed value (exact for short decimals; the judge never
 \* relies on it for long digit runs)
 FloatText(b) == LET p == PointPos(b)
                     ip == StripL(SubSeq(b, 1, p - 1))
                     fp == StripR(SubSeq(b, p + 1, Len(b)))
-                IN StrOf((IF ip = <<>> THEN <<"0">> ELSE ip) \o (IF fp = <<>> THEN <<>> ELSE <<".">> \o fp))
+                IN IF ip = <<"1">> /\ fp # <<>> /\ RoundsToOne(fp) THEN "1"
+                   ELSE StrOf((IF ip = <<>> THEN <<"0">> ELSE ip) \o (IF fp = <<>> THEN <<>> ELSE <<".">> \o fp))
 FloatIn01(b) == LET p == PointPos(b)
                     ip == StripL(SubSeq(b, 1, p - 1))
                     fp == StripR(SubSeq(b, p + 1, Len(b)))
-                IN ip = <<>> \/ (ip = <<"1">> /\ fp = <<>>)
+                IN ip = <<>> \/ (ip = <<"1">> /\ (fp = <<>> \/ FracLeq(fp, HalfUlp)))
 
 \* parse_separated_floats::<N>: [ok, h, vals] ; vals = texts of the parsed numbers
 RECURSIVE PFloats(_, _, _, _, _, _, _)
